@@ -13,10 +13,28 @@ TRUSTED = ["hand-written model Model/ForceSys.v tied to fmatrix._build_matrix/ge
            "edge.get_vector_from_vertex by exact (rational) correspondence; the fitted circle centre and the normalised "
            "versor are taken from the implementation (circle fit and np.linalg.norm are oracles)",
            "row order follows the implementation's tj_vertices (iteration order of a Python set; the property does not fix it)"]
-ASSUMPTIONS = ["circle-fit accuracy: 1e-4 on exact arcs with >=3 points, 5e-3 on exactly straight interfaces with >=3 points "
-               "(a circle is fitted to collinear points), 1e-12 for two-point interfaces"]
+ASSUMPTIONS = ["circle-fit accuracy (fit_delta, calibrated by tools/calibrate_fit.py): 1e-4 (dlite) / 1e-6 (taubinSVD) on arcs turning by >= 0.04 rad, 5e-3 + 0.6 x turning "
+               "on flatter arcs and on straight interfaces with >= 3 points (the least-squares fit stops early there), 1e-12 for two-point interfaces"]
 TESTED_NOT_PROVED = ["that the fitted centre is the centre of the arc (circle-fit contract) is checked numerically per interface"]
 IMPORTS = "From Forsys Require Import Model.Num Model.CaseUtil Model.PyList Model.Interfaces Model.ForceSys.\n"
+
+
+def iface_theta(it):
+    """total turning of an interface from its two outward end tangents"""
+    t0, t1 = it["tan0"], it["tan1"]
+    c = max(-1.0, min(1.0, -(t0[0] * t1[0] + t0[1] * t1[1])))
+    return math.acos(c)
+
+
+def fit_delta(fit, npts, theta, straight):
+    """accuracy of the circle fits, calibrated on 40000 exact arcs / lines (tools/calibrate_fit.py): 'dlite' (scipy leastsq) is within 6e-6
+    on arcs turning by >= 0.04 rad and terminates early on flatter arcs and on lines that are collinear only up to rounding (error <=
+    2.2e-3 + 0.55 x turning); taubinSVD is within 2e-11 on arcs and 5e-5 on such lines; exactly collinear points: 1e-8 (both)"""
+    if npts == 2:
+        return 1e-12
+    if straight or (fit == "dlite" and theta < 0.04):
+        return 5e-3 + 0.6 * theta
+    return 1e-4 if fit == "dlite" else 1e-6
 
 
 def hquad(t, d):
@@ -104,7 +122,7 @@ def check_case(res, spec, fit, ignore_four, exprs, label):
                 # two points define a line: its tangent is the segment direction
                 t = [d[0] / math.hypot(*d), d[1] / math.hypot(*d)]
             straight = spec["meta"].get("mobius") is None
-            tol = 1e-12 if len(p) == 2 else (5e-3 if straight else 1e-4)
+            tol = fit_delta(fit, len(p), iface_theta(it), straight)
             err = max(abs(got[0] - t[0]), abs(got[1] - t[1]))
             if abs(math.hypot(*got) - 1) > 1e-9:
                 bad.append(f"coefficient pair at junction {v} is not a unit vector: {got}")
@@ -172,6 +190,9 @@ def tissues(rng, tier):
     for kind in ("square", "brick"):
         for diamond in (False, True):
             yield gen.lattice_tissue(4, 4, kind, npts=0, diamond=diamond), f"exact-{kind}{'-diamond' if diamond else ''}"
+    # straight interfaces with an even number of evenly spaced, exactly collinear points (D23: the circle fit used to stall on the line)
+    yield gen.lattice_tissue(3, 3, "square", npts=2, w=30.0, h=10.0), "exact-rect-4pts"
+    yield gen.lattice_tissue(3, 4, "brick", npts=int(rng.choice([2, 4, 6])), w=float(rng.integers(8, 40)), h=float(rng.integers(4, 20))), "exact-brick-even-pts"
     n = 8 if tier == "quick" else 150
     for k in range(n):
         kind = k % 6
